@@ -15,10 +15,10 @@ func NewEnv() *Env {
 	return &Env{nil, map[string]*Type{}, map[string]interface{}{}}
 }
 
+// Inherit 返回以 parent 为父环境的视图, 不修改 e 本身, 同一个环境可以反复用于多次编译
 func (e *Env) Inherit(parent *Env) *Env {
 	util.Assert(e.parent == nil, "env.parent != nil")
-	e.parent = parent
-	return e
+	return &Env{parent, e.ctx, e.fnTbl}
 }
 
 func (e *Env) Derive() *Env {
